@@ -19,7 +19,10 @@ LOCK_NOTE = ('Trusted: Coq 8.16.1 kernel, no axioms; sequential consistency inst
              'enforced by the C++ types; hooks (UNODB_DETAIL_VERIF_HOOKS) placed at every lock-word / protected-field access; '
              'dsched deterministic scheduler; translator for the word functions.')
 
-QSBR_NOTE = ('Trusted: Coq 8.16.1 kernel, no axioms; theorems are about the coarse model (every QSBR API call atomic) in coq/Qsbr/QsbrModel.v, '
+QSBR_NOTE = ('Trusted: Coq 8.16.1 kernel, no axioms; theorems are about the coarse model (every QSBR API call atomic) in coq/Qsbr/QsbrModel.v; a '
+             'fine-grained model (coq/Qsbr/QsbrFine.v: one step per atomic access inside the calls, program counters, stale local copies) is '
+             'extracted and every event of every explored execution must be accepted by it (trace validation), its safety over all '
+             'interleavings is not yet a closed theorem; coarse model '
              'tied to the code by driving several qsbr_per_thread instances from one OS thread and comparing state word, epochs, request lists, '
              'orphan lists and the exact blocks freed after every call; interleavings of the atomic steps inside the calls are explored on the '
              'real code with real threads under the deterministic scheduler (all schedules up to 2-3 preemptions + random) with the property '
@@ -56,9 +59,15 @@ claimed = {
             'the lookup result at one moment inside the call (the same lemma makes a writer\'s view of parent / node / child accurate '
             'when it commits); and the meaning of the read-protocol acceptor (C03_protocol_*: no unvalidated read, child locked before '
             'the parent is released, versions used only for their own node, no guard left), which is extracted and run on the events of '
-            'every get / insert / remove of every sampled execution. NOT a Coq theorem: that the writers\' commits satisfy the rely '
-            'conditions and transform the tree as the sequential algorithm does, hence that every interleaving of '
-            'try_get/try_insert/try_remove yields a linearizable history. That is decided on the implementation: olc_db run by 2-3 QSBR '
+            'every get / insert / remove of every sampled execution; and the WRITER THEOREMS (Olc/WriteModel.v, C03_*_commit_ok, '
+            'C03_generated_*): the seven atomic commit shapes of an ART writer (add / remove leaf, root cases, leaf split, node '
+            'replacement for growth and shrink, prefix split, collapse with prefix prepend) preserve well-formedness, change the '
+            'abstract map exactly like map insert / remove, bump the word of every node they change and obsolete every node they '
+            'unlink, so every history generated by them satisfies the reader theorem\'s hypotheses and every valid reader run on it '
+            'is linearizable. NOT a Coq theorem: that the C++ writers perform exactly these commit shapes atomically under their '
+            'write guards (tied only by the store discipline and protocol checks on traces, the sequential correspondence C01 of the '
+            'same node code, and the exploration), hence that every interleaving of try_get/try_insert/try_remove of the '
+            'implementation yields a linearizable history. That is decided on the implementation: olc_db run by 2-3 QSBR '
             'threads under the deterministic scheduler, all schedules with at most one (quick) / two (thorough) preemptions per program plus '
             'random schedules, on initial trees forcing every structural change; each execution\'s history goes through the verified '
             'validator, each sampled event trace through the extracted acceptor. This exposed D3 (collapse prepends to the surviving '
